@@ -761,4 +761,102 @@ example :
       (.addVariable "B" (.scalar (.b true)) none)).2 = .ok := by
   decide
 
+/-! ## Non-vacuity (review): every hypothesis-carrying theorem instantiated at a concrete non-trivial instance -/
+
+section Review
+
+/-- The configuration hypotheses of `inv_step`, `inv_history`, `no_clash_step`, `no_clash_history`,
+    `add_variable_refuses_taken_key`, `strict_values_setter_works` hold for the tree under test (`Cfg.current`). -/
+example : Cfg.current.fullShape = true ∧ Cfg.current.addVarChecksKeys = true ∧ Cfg.current.addAttrChecksKeys = true ∧
+    Cfg.current.strictExempt.contains "values" = true := by decide
+
+private def exOps : List Op :=
+  [.addVariable "A" (.scalar (.i 1)) none, .setAttr "A" (.list [.i 4, .i 5, .i 6]) [],
+   .setItem "A" (.list [.i 1]), .setLabel "A" 2 (.scalar (.i 9)),
+   .replaceValues [("A", .scalar (.i 0)), ("B", .scalar (.i 1))]]
+/-- three periods, variables A (int) and B (bool) -/
+private def exAB : Store := run Cfg.shipped (init [0, 1, 2] .seq false)
+  [.addVariable "A" (.scalar (.i 1)) none, .addVariable "B" (.list [.b true, .b false, .b true]) none]
+/-- two periods, strict, variable A -/
+private def exStrict : Store := (step Cfg.shipped (init [0, 1] .seq true) (.addVariable "A" (.scalar (.i 1)) none)).1
+
+/-- `inv_step_partial`: a wrong-length list (raises) and a ragged nested list on the witness store. -/
+example : Container.Inv (step Cfg.shipped witnessStore (.setAttr "A" (.list [.i 1, .i 2]) [])).1 ∧
+    Container.Inv (step Cfg.shipped witnessStore (.setAttr "A" (.nested [[.i 1, .i 2], [.i 3]]) [])).1 :=
+  ⟨inv_step_partial (cfg := Cfg.shipped) (s := witnessStore) (by decide) (op := .setAttr "A" (.list [.i 1, .i 2]) []) (by decide),
+   inv_step_partial (cfg := Cfg.shipped) (s := witnessStore) (by decide)
+     (op := .setAttr "A" (.nested [[.i 1, .i 2], [.i 3]]) []) (by decide)⟩
+
+/-- `inv_step` / `inv_history`: with the whole shape compared the former witness is harmless. -/
+example : Container.Inv (step Cfg.fixed witnessStore witnessOp).1 :=
+  inv_step (cfg := Cfg.fixed) rfl (s := witnessStore) (by decide) witnessOp
+example : Container.Inv (run Cfg.current (init [0, 1, 2] .seq false) (exOps ++ [witnessOp])) :=
+  inv_history (cfg := Cfg.current) (by decide) (inv_init _ _ _) _
+
+/-- `inv_history_partial` on the five-operation history. -/
+example : Container.Inv (run Cfg.shipped (init [0, 1, 2] .seq false) exOps) :=
+  inv_history_partial (cfg := Cfg.shipped) (inv_init _ _ _) exOps (by decide)
+
+/-- `dtype_step` / `dtype_history`: the int variable `A` stays int under the shape-breaking witness, and through a
+    history that assigns floats and strings to it. -/
+example : ∃ ser', (step Cfg.shipped witnessStore witnessOp).1.get "A" = some ser' ∧ ser'.dtype = i8 :=
+  dtype_step (cfg := Cfg.shipped) witnessStore witnessOp (name := "A") (ser := ⟨i8, [3], [.i 1, .i 1, .i 1]⟩) (by decide)
+example : ∃ ser', (run Cfg.shipped witnessStore [.setAttr "A" (.list [.f 15, .f 25, .f 35]) [],
+      .setPos "A" 0 (.scalar (.s "7"))]).get "A" = some ser' ∧ ser'.dtype = i8 :=
+  dtype_history (cfg := Cfg.shipped) witnessStore _ (name := "A") (ser := ⟨i8, [3], [.i 1, .i 1, .i 1]⟩) (by decide)
+
+/-- `failed_assign_unchanged` (wrong length → DimensionError; unknown label → KeyError) and
+    `failed_add_variable_unchanged` (duplicate name). -/
+example : (step Cfg.shipped witnessStore (.setAttr "A" (.list [.i 1, .i 2]) [])).1 = witnessStore :=
+  failed_assign_unchanged (cfg := Cfg.shipped) (s := witnessStore) (op := .setAttr "A" (.list [.i 1, .i 2]) []) trivial
+    (e := .dimension) (by decide) (by decide)
+example : (step Cfg.shipped witnessStore (.setLabel "A" 7 (.scalar (.i 1)))).1 = witnessStore :=
+  failed_assign_unchanged (cfg := Cfg.shipped) (s := witnessStore) (op := .setLabel "A" 7 (.scalar (.i 1))) trivial
+    (e := .key) (by decide) (by decide)
+example : (step Cfg.shipped witnessStore (.addVariable "A" (.scalar (.i 1)) none)).1 = witnessStore :=
+  failed_add_variable_unchanged (cfg := Cfg.shipped) (e := .duplicateName) (by decide)
+
+/-- `add_variable_refuses_taken_key`: `Y` once an ad-hoc attribute `_Y` exists. -/
+example : step Cfg.fixed (step Cfg.fixed (init [0, 1] .seq false) (.setAttr "_Y" (.scalar (.i 5)) [])).1
+      (.addVariable "Y" (.scalar (.i 1)) none) =
+    ((step Cfg.fixed (init [0, 1] .seq false) (.setAttr "_Y" (.scalar (.i 5)) [])).1, .raised .duplicateName) :=
+  add_variable_refuses_taken_key (cfg := Cfg.fixed) rfl (by decide) _ _
+
+/-- `no_clash_step` / `no_clash_history` from a fresh container, including the attempts `obj._A = 5` and
+    `add_variable('Y')` after `obj._Y = 5`. -/
+example : NoClash (step Cfg.current witnessStore (.setAttr "_A" (.scalar (.i 5)) [])).1 :=
+  no_clash_step (cfg := Cfg.current) (by decide) (by decide)
+    (no_clash_history (cfg := Cfg.current) (by decide) (by decide) (no_clash_init [0, 1, 2] .seq false)
+      [.addVariable "A" (.scalar (.i 1)) none]) _
+example : NoClash (run Cfg.current (init [0, 1] .seq false)
+    [.addVariable "A" (.scalar (.i 1)) none, .setAttr "_A" (.scalar (.i 5)) [], .setAttr "_Y" (.scalar (.i 5)) [],
+     .addVariable "Y" (.scalar (.i 1)) none, .addAttribute "_A"]) :=
+  no_clash_history (cfg := Cfg.current) (by decide) (by decide) (no_clash_init _ _ _) _
+
+/-- `values_is_stack` / `size_counts_values` on the two-variable store. -/
+example : (valuesRows exAB).length = exAB.names.length ∧ (∀ row ∈ valuesRows exAB, row.length = exAB.n) ∧
+    valuesShape exAB = .ok (if exAB.names = [] then [0] else [exAB.names.length, exAB.n]) :=
+  (values_is_stack (s := exAB) (by decide)).2
+example : size exAB = ((valuesRows exAB).map List.length).sum := size_counts_values (s := exAB) (by decide) (by decide)
+example : exAB.names = ["A", "B"] ∧ size exAB = 6 := by decide
+
+/-- `strict_no_new_attribute`, `strict_reports_closest`, `strict_existing_names_work`, `strict_values_setter_works`
+    on the strict store. -/
+example : ∀ a ∈ (step Cfg.shipped exStrict (.setAttr "Aa" (.scalar (.i 1)) ["A"])).1.attrs,
+    a ∈ exStrict.attrs ∨ a ∈ Cfg.shipped.strictExempt :=
+  strict_no_new_attribute (cfg := Cfg.shipped) (s := exStrict) (by decide) (op := .setAttr "Aa" (.scalar (.i 1)) ["A"]) trivial
+example : setAttr Cfg.shipped exStrict "Aa" (.scalar (.i 1)) ["A"] = (exStrict, .raised (.attribute (some "A"))) :=
+  (strict_reports_closest (cfg := Cfg.shipped) (s := exStrict) (by decide) (name := "Aa") (by decide) (by decide) (by decide)
+    (.scalar (.i 1))).1 "A"
+example : setAttr Cfg.shipped exStrict "A" (.scalar (.i 5)) [] =
+    assignWhole Cfg.shipped exStrict "A" ⟨i8, [2], [.i 1, .i 1]⟩ (.scalar (.i 5)) :=
+  (strict_existing_names_work (cfg := Cfg.shipped) exStrict "A" (.scalar (.i 5)) []).1 _ (by decide)
+example : setAttr Cfg.shipped exStrict "span" (.scalar (.i 5)) [] = (exStrict, .ok) :=
+  (strict_existing_names_work (cfg := Cfg.shipped) exStrict "span" (.scalar (.i 5)) []).2 (by decide) (by decide) (by decide)
+example : (setValues Cfg.current exStrict (.scalar (.i 0)) ["A"]).2 = (setValuesCore Cfg.current exStrict (.scalar (.i 0))).2 :=
+  strict_values_setter_works (cfg := Cfg.current) (by decide) exStrict _ _ (by decide)
+example : (setValues Cfg.current exStrict (.scalar (.i 0)) ["A"]).2 = .ok := by decide
+
+end Review
+
 end Fsic.C09
